@@ -641,7 +641,136 @@ def _run_ps(t_, steps):
     return t_
 
 
-STANDINS = [standin_algebra, standin_conjugation, standin_expectation_and_phasor, standin_pauli_sums, standin_combination_powers, standin_simulated_expectations, standin_operand_independence]
+def standin_string_views(tier, seed):
+    """further descriptions of one Pauli string against its dense matrix: the sparse matrix, the decomposition, powers (ps**t, a principal power of a
+    unitary string), exponentials (base**ps for an anti-Hermitian string), and the accessors of the mutable form against the frozen one"""
+    import math
+
+    import cirq
+    import scipy.linalg
+
+    rng = random.Random(seed + 1234)
+    q = cirq.LineQubit.range(3)
+    cases, fails = 0, []
+
+    def bad(what, **kw):
+        fails.append(dict(args={k: repr(v)[:300] for k, v in kw.items()}, failed=what, clause=what))
+
+    for _ in range(60 if tier == "quick" else 800):
+        used = rng.sample(q, rng.randrange(1, 4))
+        coeff = rng.choice([1, -1, 1j, -1j, np.exp(0.3j), np.exp(-2.1j)])
+        ps = cirq.PauliString({x: rng.choice([cirq.X, cirq.Y, cirq.Z]) for x in used}, coefficient=coeff)
+        order = rng.sample(q, 3)
+        M = ps.matrix(order)
+        cases += 1
+        if hasattr(ps, "sparse_matrix"):
+            sm = (ps * rng.choice([1, 0.5, 2j])).sparse_matrix(order)
+            want_sm = (ps * 1).matrix(order)
+            ratio = None
+            dense = sm.toarray()
+            # the scalar used above is unknown here: compare the direction, then the scalar through one entry
+            idx = np.argmax(np.abs(want_sm))
+            ratio = dense.flat[idx] / want_sm.flat[idx]
+            if not np.allclose(dense, ratio * want_sm, atol=1e-9) or not any(abs(ratio - c_) < 1e-9 for c_ in (1, 0.5, 2j)):
+                bad("sparse_matrix differs from matrix", string=ps, qubits=order)
+            if not np.allclose(ps.sparse_matrix(order).toarray(), M, atol=1e-9) or not np.allclose(ps.sparse_matrix().toarray(), ps.matrix(), atol=1e-9):
+                bad("sparse_matrix differs from matrix", string=ps, qubits=order)
+        # decomposition of a unitary string
+        dec = cirq.decompose_once(ps, default=None)
+        if dec is not None:
+            got = cirq.Circuit(dec).unitary(qubit_order=order, qubits_that_should_be_present=order)
+            if not np.allclose(got, M, atol=1e-8):
+                bad("the decomposition of a unitary Pauli string is not its matrix", string=ps, qubits=order)
+        elif abs(abs(coeff) - 1) < 1e-9:
+            bad("a Pauli string with a unit coefficient does not decompose", string=ps)
+        # powers: ps**-1 inverts; ps**t is a t-th power (its matrix commutes with M and (ps**t)**(1/t)... checked as exp(t log M) on the principal branch
+        inv = ps ** -1
+        if not np.allclose(inv.matrix(order) @ M, np.eye(8), atol=1e-8):
+            bad("ps**-1 is not the inverse", string=ps)
+        for t_ in (0.5, 2, 3, -0.5, 0.25):
+            cases += 1
+            pw = ps ** t_
+            sub_order = [x for x in order if x in used]
+            try:
+                U = cirq.Circuit(pw).unitary(qubit_order=sub_order) if isinstance(pw, cirq.Operation) else None
+            except Exception as ex:
+                bad(f"ps**{t_} has no unitary: {ex!r}", string=ps)
+                continue
+            if U is None:
+                continue
+            Ms = ps.matrix(sub_order)
+            # a t-th power of M: same eigenvectors, eigenvalues lam**t on SOME branch; with eigenvalues +-c of M: U = a P+ + b P- with a = c**t, b = (-c)**t (branches allowed)
+            d = len(Ms)
+            c_ = complex(coeff)
+            Pp, Pm = (np.eye(d) + Ms / c_) / 2, (np.eye(d) - Ms / c_) / 2
+            a_ = np.trace(Pp @ U) / (d / 2)
+            b_ = np.trace(Pm @ U) / (d / 2)
+            th_p, th_m = np.angle(c_), np.angle(-c_)
+            okp = any(abs(a_ - np.exp(1j * t_ * (th_p + 2 * np.pi * k))) < 1e-7 for k in range(-4, 5))
+            okm = any(abs(b_ - np.exp(1j * t_ * (th_m + 2 * np.pi * k))) < 1e-7 for k in range(-4, 5))
+            if not np.allclose(U, a_ * Pp + b_ * Pm, atol=1e-7) or not okp or not okm:
+                bad(f"ps**{t_} is not a {t_}-th power of the string's matrix", string=ps, power=t_)
+            elif float(t_).is_integer() and not np.allclose(U, np.linalg.matrix_power(Ms, int(t_)), atol=1e-7):
+                bad(f"ps**{t_} is not the {t_}-th matrix power", string=ps, power=t_)
+        # exponentials of anti-Hermitian strings
+        for base, im in ((math.e, 0.4), (math.e, -1.3), (2.0, 0.7), (10, math.pi / 8)):
+            cases += 1
+            ah = cirq.PauliString({x: ps[x] for x in used}, coefficient=1j * im)
+            try:
+                ex_ = base ** ah
+            except Exception as ex:
+                bad(f"base**string raised {ex!r}", string=ah, base=base)
+                continue
+            sub_order = [x for x in order if x in used]
+            U = cirq.Circuit(ex_).unitary(qubit_order=sub_order)
+            want = scipy.linalg.expm(math.log(base) * ah.matrix(sub_order))
+            if not np.allclose(U, want, atol=1e-7):
+                bad("base**string is not the matrix exponential exp(ln(base) * string)", string=ah, base=base)
+        # the mutable form
+        cases += 1
+        m = ps.mutable_copy()
+        fz = m.frozen()
+        if fz != ps or dict(m.items()) != dict(ps.items()) or set(m.keys()) != set(ps.keys()) or sorted(map(str, m.values())) != sorted(map(str, ps.values())) or len(m) != len(ps) or bool(m) != bool(ps):
+            bad("MutablePauliString accessors differ from the frozen string", string=ps)
+        for x in q:
+            if (x in m) != (x in ps) or m.get(x) != ps.get(x) or m.get(x, "d") != ps.get(x, "d"):
+                bad("MutablePauliString membership / get differ from the frozen string", string=ps, qubit=x)
+        other = cirq.PauliString({x: rng.choice([cirq.X, cirq.Y, cirq.Z]) for x in rng.sample(q, 2)}, coefficient=rng.choice([1, -1, 1j]))
+        L = ps.mutable_copy().inplace_left_multiply_by(other).frozen()
+        R_ = ps.mutable_copy().inplace_right_multiply_by(other).frozen()
+        # the library's convention (its own tests call it the correct order): "left-multiply other INTO self" keeps self on the left, self := self * other;
+        # inplace_right_multiply_by and *= give other * self
+        I_ = ps.mutable_copy()
+        I_ *= other
+        if not np.allclose(L.matrix(q), ps.matrix(q) @ other.matrix(q), atol=1e-8) or not np.allclose(R_.matrix(q), other.matrix(q) @ ps.matrix(q), atol=1e-8) or I_.frozen() != R_:
+            bad("in-place multiplication is not the matrix product in the documented order", a=ps, b=other)
+        m2 = ps.mutable_copy()
+        m2[q[0]] = cirq.Y
+        del_target = used[0]
+        m3 = ps.mutable_copy()
+        del m3[del_target]
+        want2 = dict(ps.items())
+        want2[q[0]] = cirq.Y
+        want3 = {k: v for k, v in ps.items() if k != del_target}
+        if dict(m2.items()) != want2 or dict(m3.items()) != want3 or m2.coefficient != ps.coefficient or dict(ps.items()) != dict(fz.items()):
+            bad("setting / deleting a factor of the mutable form changes anything else (or the string it was copied from)", string=ps)
+        perm = dict(zip(q, rng.sample(q, 3)))
+        tq = ps.mutable_copy().transform_qubits(lambda x: perm[x]).frozen()
+        if tq != ps.map_qubits(perm) or not np.allclose(tq.matrix([perm[x] for x in order]), M, atol=1e-9):
+            bad("transform_qubits / map_qubits do not relabel the string", string=ps, map=perm)
+        if len(fails) >= 4:
+            break
+    seen, uniq = set(), []
+    for f_ in fails:
+        if f_["failed"] not in seen:
+            seen.add(f_["failed"])
+            uniq.append(f_)
+    return dict(function="cirq-core/cirq/ops/pauli_string.py:PauliString[sparse matrix, decomposition, powers, exponentials, mutable form]", case="string-views",
+                bound="seeded strings on <= 3 qubits x 6 unit coefficients x random qubit orders; powers 0.5, 2, 3, -0.5, 0.25; 4 exponentials", cases=cases, distinct=cases, failures=len(uniq), exhaustive=False, _fails=uniq[:4])
+standin_string_views.prop = "C14"
+
+
+STANDINS = [standin_string_views, standin_algebra, standin_conjugation, standin_expectation_and_phasor, standin_pauli_sums, standin_combination_powers, standin_simulated_expectations, standin_operand_independence]
 
 NOT_COVERED = [
     "PauliString.__mul__/_imul_helper as a whole (loop over the factors), DensePauliString.__mul__/__pow__, _calc_conjugation, PauliSum algebra: bounded only",
